@@ -115,6 +115,23 @@ def callback_return_cases():
     return cases
 
 
+def comprehension_scope_cases():
+    """a comprehension's variable lives only in the comprehension: an enclosing loop variable, parameter or definition of the same name is what
+    it was afterwards — also when the comprehension is left by an error that is caught nearby, for every comprehension shape"""
+    shapes = ["[BODY for x in [50, 60]]", "<<BODY for x in [50, 60] >>", "<<<x => BODY for x in [50, 60] >>>", "[BODY for x in [50] for z_ in [1, 2]]",
+              "[BODY for x in [50, 60] also for z_ in [1, 2]]", "<<BODY for x in [50] for z_ in [1, 2] >>", "[BODY for z_ in [1, 2] for x in [50]]",
+              "[BODY for x in keys <<<50 => 1>>>]", "[BODY for x in 'ab']"]
+    cases = []
+    for sh in shapes:
+        ok, bad = sh.replace("BODY", "x"), sh.replace("BODY", "error 'boom'")
+        cases.append((f"def r = []; for x in [1, 2, 3] do {ok}; append(r, x) end; r", ('text', "[1, 2, 3]")))
+        cases.append((f"def r = []; for x in [1, 2, 3] do do {bad} catch 'boom' 0 end; append(r, x) end; r", ('text', "[1, 2, 3]")))
+        cases.append((f"def f(x) do do {bad} catch all 0 end; x end; [f(1), f(2)]", ('text', "[1, 2]")))
+        cases.append((f"def x = 'top'; do {bad} catch all 0 end; {ok}; x", ('text', "'top'")))
+        cases.append((f"def r = []; def i = 0; while i < 2 do i += 1; def x = i; do {bad} catch all 0 end; append(r, x) end; r", ('text', "[1, 2]")))
+    return cases
+
+
 def exit_cases():
     """return / break / continue in their operand-free forms"""
     return [
@@ -162,6 +179,7 @@ def run(ctx):
     progcheck.run_templates(ctx, comprehension_cases(ctx.rng, None if ctx.thorough else 500), "comprehension-vs-loop")
     progcheck.run_templates(ctx, effect_order_cases(), "comprehension-effect-order")
     progcheck.run_templates(ctx, callback_return_cases(), "return-in-callbacks")
+    progcheck.run_templates(ctx, comprehension_scope_cases(), "comprehension-scope")
     progcheck.run_templates(ctx, exit_cases(), "exit-statements")
     common.replay_known(ctx)
 
